@@ -369,11 +369,20 @@ func (mab *memoryAddrBook) ConsumePeerRecord(recordEnvelope *record.Envelope, tt
 	// lookups are cheap.
 	if found {
 		if prevRec := prevSignedAddrs(lastState); len(prevRec) > 0 {
+			// Addresses are stored without their /p2p/<own id> suffix: compare
+			// the two records in that form as well.
 			newAddrSet := make(map[string]struct{}, len(rec.Addrs))
 			for _, a := range rec.Addrs {
-				newAddrSet[string(a.Bytes())] = struct{}{}
+				if a, pid := peer.SplitAddr(a); a != nil && (pid == "" || pid == rec.PeerID) {
+					newAddrSet[string(a.Bytes())] = struct{}{}
+				}
 			}
 			for _, a := range prevRec {
+				a, pid := peer.SplitAddr(a)
+				if a == nil || (pid != "" && pid != rec.PeerID) {
+					// never stored from the record
+					continue
+				}
 				key := string(a.Bytes())
 				if _, still := newAddrSet[key]; still {
 					continue
